@@ -447,9 +447,18 @@ Definition accessor_fields_ok (fl : ctor_flags) (sd : sdecl) : bool :=
                     | EmptyString => false end)
           (spec_accessors fl sd true ++ spec_accessors fl sd false).
 
+(* no accessor is named like a method the template declares anyway (finding K_ctor_method_name_collision: a field
+   `shootNew`, or `with` / `setDefault` under -opt, `marshalJSON` under -json: method declared twice) *)
+Definition reserved_methods : list string := ["ShootNew"; "With"; "SetDefault"; "MarshalJSON"; "UnmarshalJSON"].
+Definition accessor_names_free (fl : ctor_flags) (sd : sdecl) : bool :=
+  forallb (fun a => negb (existsb (String.eqb (getter_name (af_name a))) reserved_methods))
+          (spec_accessors fl sd true) &&
+  forallb (fun a => negb (existsb (String.eqb (setter_name (af_name a))) reserved_methods))
+          (spec_accessors fl sd false).
+
 Definition c03_guard (pkg : pkg_spec) (fl : ctor_flags) (fuel : nat) (sd : sdecl) : bool :=
   c02_guard pkg fuel sd && no_excluded_fields sd && own_names_fresh pkg fuel sd &&
-  embedded_names_fresh pkg fuel sd && accessor_fields_ok fl sd.
+  embedded_names_fresh pkg fuel sd && accessor_fields_ok fl sd && accessor_names_free fl sd.
 
 (* the type the template prints for a field of the struct itself (TypeMap): qualifiedName strips the
    leading stars of the printed type and remembers whether there was one *)
